@@ -21,6 +21,7 @@ THEOREMS = [
     "RedunModel.C18.fixed_scheduler_options",
 ]
 TRUSTED = [
+    "text elements of a hashed structure (names, source text, versions) are assumed never to coincide with a hex digest",
     "hashes are symbolic pre-images: hash_struct is a perfect hash; TypeRegistry.get_hash on plain values and "
     "hash_bytes(pickle_dumps(options)) are injective labellings (pickle and SHA-512/160 are outside the claim)",
     "TypeRegistry.serialize/deserialize of argument tuples/dicts and values is modelled as the identity in the state "
@@ -46,7 +47,8 @@ LEVEL_TEXT = ("Proved on the model (repaired SchedulerExpression._calc_hash) for
               "strength); legacy states load with empty options, missing mandatory keys raise KeyError. "
               "refuted_old_scheduler_options is the closed witness on the model of the code before the repair. Tie: real "
               "get_hash pre-images and real pickle round trips compared with the model on generated expression trees.")
-LEVEL_NOTE = ("Hashes are compared as pre-images. pickle/TypeRegistry serialisation is exercised by the harness, not modelled. Hash "
+LEVEL_NOTE = ("The model mirrors the code WITH the proposed repair(s) (harness/findings_proposed/C18-*.fix.diff); on a tree "
+              "without them the check reports VIOLATION with concrete replays, by design. Hashes are compared as pre-images. pickle/TypeRegistry serialisation is exercised by the harness, not modelled. Hash "
               "caching in `_hash` (a stale hash after mutating args in place) is not modelled. Merging of equal-hash expressions "
               "in the scheduler (`_pending_expr`) belongs to C06/C01.")
 TECHNIQUE = "Lean 4 proof on a hand-written model of the four _calc_hash and getstate/setstate + pre-image correspondence + pair oracle"
